@@ -23,7 +23,7 @@ Record mthread := mkT { t_pc : mpc; t_ops : list op }.
 Record mconf := mkC {
   c_store : mem_store;
   c_threads : list mthread;
-  c_log : list op;          (* ghost: commit order *)
+  c_log : list (nat * op);  (* ghost: commit order, with the committing goroutine *)
   c_indexed : list gkey }.  (* ghost: keys whose graph.index step has run *)
 
 (* result of one atomic step of a goroutine: new store, new thread state, operations
@@ -77,7 +77,7 @@ Definition mconf_step (cf : mconf) (i : nat) : mconf :=
       match mthread_step (c_store cf) t with
       | None => cf
       | Some (s', t', lg, ix) =>
-          mkC s' (upd_nth i t' (c_threads cf)) (c_log cf ++ lg) (ix ++ c_indexed cf)
+          mkC s' (upd_nth i t' (c_threads cf)) (c_log cf ++ map (pair i) lg) (ix ++ c_indexed cf)
       end
   end.
 
@@ -90,3 +90,7 @@ Definition thread_done (t : mthread) : bool :=
   match t_pc t, t_ops t with MIdle, [] => true | _, _ => false end.
 
 Definition quiescent (cf : mconf) : bool := forallb thread_done (c_threads cf).
+
+(* the operations goroutine i has committed, in commit order *)
+Definition log_of (i : nat) (L : list (nat * op)) : list op :=
+  map snd (filter (fun e => Nat.eqb (fst e) i) L).
